@@ -24,6 +24,16 @@ deliberately non-monotonic so that no accidental sort repairs a wrong order):
   documented InvalidRequestError for an explicit sentinel the dialect cannot
   use, with nothing inserted) must occur; any other exception is a violation.
 
+Heterogeneous key sets (ORM bulk routes): insert(Entity) with / without
+returning(sort_by_parameter_order) and bulk_insert_mappings(return_defaults) scan
+every dictionary and emit one INSERT per run of same-keyed dictionaries; every
+sequence of n<=4 (quick) / n<=6 (thorough) parameter sets over the key-set kinds
+A={data}, B={data,opt}, C={data,opt2} is executed for a single-table entity
+(autoincrement / client UUID key) and a joined-inheritance entity whose optional
+keys sit on the sub-table (parent rows one run, child rows several), again under
+every answer order; the n-th returned entity / row / mapping must carry marker,
+key AND optional columns of the n-th parameter set.
+
 A second, compile-level part drives the real
 ``SQLCompiler._deliver_insertmanyvalues_batches`` of statements compiled for
 postgresql (pyformat / numeric_dollar / format), mysql+mariadb (format) and
@@ -67,6 +77,14 @@ Mutations caught (each in a private copy, VF_REPO=/tmp/wt-dml):
   8. sql/compiler.py named branch: ``param[key]`` -> ``batch[0][key]`` (first
      row's values for every row of a batch)
   9. sql/compiler.py numeric branch: ``end = ... + start`` -> ``... + start - 1``
+ 10. orm/persistence.py _emit_insert_statements: ``return_result.splice_vertically(result)``
+     -> ``result.splice_vertically(return_result)`` (per-key-set groups concatenated in
+     reverse; caught only by the heterogeneous key-set routes: single table ->
+     returned-order, joined inheritance -> an entity carrying another row's key)
+ 11. orm/persistence.py: records sorted by key set before the groupby (A,B,A
+     collapsed into two statements, rows returned group-wise)
+     (not property-breaking, correctly silent: splice_horizontally operands swapped -
+     ORM returning resolves columns by identity, not position)
 """
 from __future__ import annotations
 
@@ -125,9 +143,11 @@ META = dict(
     ],
     bounds=dict(
         quick="n in 1..5, page in {1,2,3,4,1000}; all answer plans (<=120 per case); 13 table styles x 13 engine configurations x 10 routes; "
-        "compile-level: n in 2..5, page in {1,2,3,1000}, 6 dialect/paramstyle pairs x 5 table styles x 3 routes",
+        "compile-level: n in 2..5, page in {1,2,3,1000}, 6 dialect/paramstyle pairs x 5 table styles x 3 routes; heterogeneous key "
+        "sets: all sequences of 2..4 parameter sets over 3 key-set kinds x 3 entities (incl. joined inheritance) x 4 engine "
+        "configurations x 4 ORM bulk routes, page in {2,1000} (joined: {2})",
         thorough="n in 1..6 with page in {1,2,3,4,5,1000} and n=7 with page in {1,2,3,4} (all answer plans, <=720 per case); "
-        "compile-level: n<=7",
+        "compile-level: n<=7; heterogeneous key sets: all sequences of 2..6 parameter sets (page 2 for n>=5; joined: pages {2,3} for n<=4)",
     ),
 )
 SHARD_TIMEOUT = dict(quick=300, thorough=1800)
@@ -539,6 +559,9 @@ def shards(tier, seed):
             out.append(("exec", tname, ename))
     for d in COMPILE_DIALECTS:
         out.append(("compile", d))
+    for hname in HET:
+        for ename in HET_ECFG:
+            out.append(("het", hname, ename))
     return out
 
 
@@ -550,6 +573,8 @@ def _sig(kind, tname, ename, route, n, page, via, plan):
 def run_shard(shard, tier, rec):
     if shard[0] == "compile":
         return run_compile_shard(shard[1], tier, rec)
+    if shard[0] == "het":
+        return run_het_shard(shard[1], shard[2], tier, rec)
     _, tname, ename = shard
     tc = TABLES[tname]
     for route in ROUTES:
@@ -603,6 +628,8 @@ def _run_case(rec, tc, tname, ename, route, n, page, via):
 def replay(case):
     if case.get("kind") == "compile":
         return replay_compile(case)
+    if case.get("kind") == "het":
+        return replay_het(case)
     tc = TABLES[case["t"]]
     plan = {int(k): list(v) for k, v in case["plan"].items()}
     n, page, via, route, ename = case["n"], case["page"], case["via"], case["route"], case["e"]
@@ -617,6 +644,231 @@ def replay(case):
         res.append((_sig("batching-depends-on-answer", case["t"], ename, route, n, page, via, plan), "batches %r vs %r" % (o.batches, base.batches)))
     for kind, detail in check(tc, ename, route, n, param_sets(tc, n), o):
         res.append((_sig(kind, case["t"], ename, route, n, page, via, plan), detail + "\nstatements: %r" % (o.stmts[:4],)))
+    return res
+
+
+# ------------------------------------------------------------------ heterogeneous key sets (ORM bulk routes)
+#
+# session.execute(insert(Entity)[.returning(.., sort_by_parameter_order=True)], [dicts]) and bulk_insert_mappings scan
+# every dictionary (documented) and emit one INSERT per *run* of dictionaries with the same key set; the per-run
+# results are concatenated (Result.splice_vertically) and, for joined inheritance, the per-table results are put side
+# by side (splice_horizontally).  Enumerated: every sequence of n parameter sets over three key-set kinds
+# A={data} B={data,opt} C={data,opt2} (A,B,A etc. give >=2 runs), single-table entities (autoincrement / client UUID
+# key) and a joined-inheritance entity whose optional keys live on the sub-table only (parent rows form ONE run while
+# child rows form several), again under every answer order of every batch.
+
+HET_KINDS = ("A", "B", "C")
+HET_ROUTES = ("het_ret_entity", "het_ret_cols", "het_plain", "het_maps")
+HET_ECFG = ("stock-qmark", "maria-qmark", "maria-named", "mssql-qmark")
+
+
+class HCfg:
+    def __init__(self, name, cls, tables, style):
+        self.name, self.cls, self.tables, self.style = name, cls, tables, style
+
+
+def _mk_het():
+    H = {}
+    t1 = Table("c12_het_auto", MD, Column("id", Integer, primary_key=True), Column("data", String), Column("opt", Integer), Column("opt2", Integer))
+    c1 = type("H_auto", (object,), {})
+    ORM.map_imperatively(c1, t1)
+    H["het_auto"] = HCfg("het_auto", c1, [t1], "single table, autoincrement PK, optional keys opt/opt2")
+    t2 = Table("c12_het_uuid", MD, Column("id", Uuid(), primary_key=True, default=GEN.uuid), Column("data", String), Column("opt", Integer), Column("opt2", Integer))
+    c2 = type("H_uuid", (object,), {})
+    ORM.map_imperatively(c2, t2)
+    H["het_uuid"] = HCfg("het_uuid", c2, [t2], "single table, client-side UUID PK, optional keys opt/opt2")
+    tp = Table("c12_het_jp", MD, Column("id", Integer, primary_key=True), Column("type", String), Column("data", String))
+    tc_ = Table("c12_het_jc", MD, Column("id", Integer, sa.ForeignKey("c12_het_jp.id"), primary_key=True), Column("opt", Integer), Column("opt2", Integer))
+    P = type("H_parent", (object,), {})
+    C = type("H_child", (P,), {})
+    ORM.map_imperatively(P, tp, polymorphic_on=tp.c.type, polymorphic_identity="p")
+    ORM.map_imperatively(C, tc_, inherits=P, polymorphic_identity="c")
+    H["het_joined"] = HCfg("het_joined", C, [tp, tc_], "joined inheritance, autoincrement PK on parent, optional keys on the sub-table only")
+    return H
+
+
+HET = _mk_het()
+
+
+def het_params(seq):
+    out = []
+    for i, k in enumerate(seq):
+        d = {"data": MARKERS[i]}
+        if k == "B":
+            d["opt"] = 100 + i
+        elif k == "C":
+            d["opt2"] = 200 + i
+        out.append(d)
+    return out
+
+
+def het_sequences(nmax):
+    for n in range(2, nmax + 1):
+        yield from ("".join(x) for x in itertools.product(HET_KINDS, repeat=n))
+
+
+def het_cases(tier, joined):
+    """(sequence, page); the joined entity issues parent + child statements, its answer plans multiply: small pages only"""
+    if tier == "quick":
+        for seq in het_sequences(4):
+            for page in ((2,) if joined else (2, 1000)):
+                yield seq, page
+    else:
+        for seq in het_sequences(6):
+            if len(seq) <= 4:
+                pages = (2, 3) if joined else (2, 1000)
+            else:
+                pages = (2,)
+            for page in pages:
+                yield seq, page
+
+
+class HetRunner:
+    def __init__(self, hc, ename, route, seq, page):
+        self.hc, self.ename, self.route, self.seq, self.page = hc, ename, route, seq, page
+        self.eng, self.px = make_engine(ename, page, "engine")
+        with warnings.catch_warnings():
+            warnings.simplefilter("ignore")
+            for t in hc.tables:
+                t.create(self.eng)
+        self.first = True
+
+    def close(self):
+        self.eng.dispose()
+
+    def run(self, plan):
+        hc, route = self.hc, self.route
+        GEN.reset()
+        o = Obs()
+        o.error = o.returned = o.pk_rows = o.rd_rows = o.obj_keys = None
+        params = het_params(self.seq)
+        cls = hc.cls
+        with warnings.catch_warnings():
+            warnings.simplefilter("ignore")
+            with self.eng.connect() as conn:
+                if not self.first:
+                    for t in reversed(hc.tables):
+                        conn.exec_driver_sql("DELETE FROM %s" % t.name)
+                    conn.commit()
+                self.first = False
+                self.px.reset(plan)
+                try:
+                    with Session(bind=conn) as s:
+                        if route == "het_ret_entity":
+                            res = s.execute(insert(cls).returning(cls, sort_by_parameter_order=True), params)
+                            o.returned = [(ob.data, ob.id, ob.opt, ob.opt2) for ob in res.scalars().all()]
+                        elif route == "het_ret_cols":
+                            res = s.execute(insert(cls).returning(cls.opt2, cls.data, cls.id, cls.opt, sort_by_parameter_order=True), params)
+                            o.returned = [(r[1], r[2], r[3], r[0]) for r in res.all()]
+                        elif route == "het_plain":
+                            s.execute(insert(cls), params)
+                        elif route == "het_maps":
+                            maps = [dict(p_) for p_ in params]
+                            s.bulk_insert_mappings(cls, maps, return_defaults=True)
+                            o.returned = [(m_.get("data"), m_.get("id"), m_.get("opt"), m_.get("opt2")) for m_ in maps]
+                        else:
+                            raise AssertionError(route)
+                        s.commit()
+                except (sa_exc.SQLAlchemyError, AssertionError, KeyError, IndexError, TypeError, ValueError, AttributeError) as e:
+                    o.error = e
+                o.batches = tuple(self.px.batches)
+                o.applied = tuple(self.px.applied)
+                o.stmts = [(k, s_, len(p_)) for k, s_, p_ in self.px.log if s_ is not None and s_.lstrip().upper().startswith("INSERT")]
+                self.px.reset()
+                if conn.in_transaction():
+                    conn.rollback()
+                if len(hc.tables) == 1:
+                    t = hc.tables[0]
+                    o.stored = [dict(r._mapping) for r in conn.execute(select(t.c.id, t.c.data, t.c.opt, t.c.opt2))]
+                else:
+                    tp, tc_ = hc.tables
+                    o.stored = [dict(r._mapping) for r in conn.execute(select(tp.c.id, tp.c.data, tc_.c.opt, tc_.c.opt2, tc_.c.id.label("cid"), tp.c.type).select_from(tp.outerjoin(tc_, tp.c.id == tc_.c.id)))]
+                conn.rollback()
+        return o
+
+
+def het_check(hc, route, seq, o):
+    out = []
+    params = het_params(seq)
+    n = len(params)
+    if o.error is not None:
+        return [("unexpected-error", "%s: %s" % (type(o.error).__name__, str(o.error)[:300]))]
+    want = sorted((p["data"], p.get("opt"), p.get("opt2")) for p in params)
+    got = sorted((r["data"], r["opt"], r["opt2"]) for r in o.stored)
+    if got != want:
+        return [("table-contents", "stored (data, opt, opt2) %r, parameter sets %r" % (got, want))]
+    if len(hc.tables) == 2 and any(r["cid"] != r["id"] or r["type"] != "c" for r in o.stored):
+        return [("joined-rows", "parent/child rows not paired: %r" % (o.stored,))]
+    key_of = {r["data"]: r["id"] for r in o.stored}
+    if len(set(key_of.values())) != n:
+        return [("duplicate-keys", repr(o.stored))]
+    if o.returned is not None:
+        if len(o.returned) != n:
+            return [("returned-count", "%d returned for %d parameter sets: %r" % (len(o.returned), n, o.returned))]
+        for i, (mk, key, opt, opt2) in enumerate(o.returned):
+            p = params[i]
+            if mk != p["data"]:
+                out.append(("returned-order", "entry %d is %r, parameter set %d has marker %r; all: %r" % (i, mk, i, p["data"], o.returned)))
+                break
+            if key != key_of[mk]:
+                out.append(("returned-key-mismatch", "entry %d (%r) carries key %r, its stored row has key %r; all: %r" % (i, mk, key, key_of[mk], o.returned)))
+                break
+            if route != "het_maps" and (opt, opt2) != (p.get("opt"), p.get("opt2")):
+                out.append(("returned-columns-of-another-row", "entry %d (%r) carries opt/opt2 %r, parameter set %d has %r; all: %r" % (i, mk, (opt, opt2), i, (p.get("opt"), p.get("opt2")), o.returned)))
+                break
+    return out
+
+
+def _hsig(kind, hname, ename, route, seq, page, plan):
+    return "%s: entity=%s engine=%s route=%s keysets=%s page=%d answer=%s" % (
+        kind, hname, ename, route, seq, page, ",".join("%s:%s" % (k, "".join(map(str, v))) for k, v in sorted(plan.items())) or "as-is")
+
+
+def _runs(seq):
+    return 1 + sum(1 for a, b in zip(seq, seq[1:]) if a != b)
+
+
+def run_het_shard(hname, ename, tier, rec):
+    hc = HET[hname]
+    for route in HET_ROUTES:
+        for seq, page in het_cases(tier, len(hc.tables) == 2):
+            runner = HetRunner(hc, ename, route, seq, page)
+            try:
+                base = runner.run({})
+                plans = answer_plans(base.batches) if base.error is None else [{}]
+                rec.outcome((hname, ename, route, _runs(seq), shape(base), type(base.error).__name__ if base.error else None))
+                for plan in plans:
+                    o = base if not plan else runner.run(plan)
+                    pkey = tuple(sorted((k, tuple(v)) for k, v in plan.items()))
+                    rec.case(("het", hname, ename, route, seq, page, pkey), nontrivial=_runs(seq) >= 2)
+                    case = dict(kind="het", h=hname, e=ename, route=route, seq=seq, page=page, plan={str(k): v for k, v in plan.items()})
+                    if plan and tuple(o.batches) != tuple(base.batches) and o.error is None:
+                        rec.violation(_hsig("batching-depends-on-answer", hname, ename, route, seq, page, plan), "batches %r vs %r" % (o.batches, base.batches), case, kind=("nd", hname, route))
+                    for kind, detail in het_check(hc, route, seq, o):
+                        rec.violation(_hsig(kind, hname, ename, route, seq, page, plan), detail + "\nstatements: %r" % (o.stmts[:6],), case, kind=(kind, hname, ename, route))
+                    if seq == "ABA" and page == 2 and not plan and route == "het_ret_entity":
+                        rec.sample(dict(configuration=ename, entity=hc.style, route=route, key_sets=seq, statements=[s_ for _, s_, _ in o.stmts], returned=[list(map(str, x)) for x in (o.returned or [])]), limit=1)
+                rec.count("het_executions", len(plans))
+                if _runs(seq) >= 2:
+                    rec.count("het_cases_with_several_runs")
+            finally:
+                runner.close()
+
+
+def replay_het(case):
+    hc = HET[case["h"]]
+    plan = {int(k): list(v) for k, v in case["plan"].items()}
+    runner = HetRunner(hc, case["e"], case["route"], case["seq"], case["page"])
+    try:
+        base = runner.run({})
+        o = base if not plan else runner.run(plan)
+    finally:
+        runner.close()
+    res = []
+    if plan and tuple(o.batches) != tuple(base.batches) and o.error is None:
+        res.append((_hsig("batching-depends-on-answer", case["h"], case["e"], case["route"], case["seq"], case["page"], plan), "batches %r vs %r" % (o.batches, base.batches)))
+    for kind, detail in het_check(hc, case["route"], case["seq"], o):
+        res.append((_hsig(kind, case["h"], case["e"], case["route"], case["seq"], case["page"], plan), detail + "\nstatements: %r" % (o.stmts[:6],)))
     return res
 
 
